@@ -21,12 +21,12 @@ TAGMAP = {
                     EXPORT=["C07"], EXPCAP=["C19"], CMPLIVE=["C20"]),
     "keylist": {"RES_PRED": ["C13"], "EMPTY": ["C13"], "RES_GET": ["C13"], "REFINE": ["C13"], "EXPORT": ["C07", "C13"],
                 "EXPCAP": ["C19"], "CMPLIVE": ["C20"], "OUTCOME": ["C10"], "TORN": ["C18"], "CLEARED": ["C12"]},
-    "maptree": dict(COMMON_TREE, RES_GET=["C04"], EMPTY=["C04"], REFINE=["C04"], HANDLE=["C08"], HREAD=["C08"],
+    "maptree": dict(COMMON_TREE, DROPS=["C04"], RES_GET=["C04"], EMPTY=["C04"], REFINE=["C04"], HANDLE=["C08"], HREAD=["C08"],
                     HSLOT=["C08"], HEFFECT=["C08"], HSTALE=["C17"], STABLE=["C17"]),
-    "settree": dict(COMMON_TREE, RES_GET=["C05"], EMPTY=["C05"], REFINE=["C05"], HANDLE=["C08"], HREAD=["C08"],
+    "settree": dict(COMMON_TREE, DROPS=["C05"], RES_GET=["C05"], EMPTY=["C05"], REFINE=["C05"], HANDLE=["C08"], HREAD=["C08"],
                     HSLOT=["C08"], HEFFECT=["C08"], HSTALE=["C17"], STABLE=["C17"], STEP=["C09"]),
-    "maplist": {t: ["C13"] for t in ("RES_GET", "EMPTY", "REFINE", "HANDLE", "HREAD", "HPOS", "HEFFECT", "STEP", "HSTALE")},
-    "setlist": {t: ["C13"] for t in ("RES_GET", "EMPTY", "REFINE", "HANDLE", "HREAD", "HPOS", "HEFFECT", "STEP", "HSTALE")},
+    "maplist": {t: ["C13"] for t in ("RES_GET", "EMPTY", "REFINE", "HANDLE", "HREAD", "HPOS", "HEFFECT", "STEP", "HSTALE", "DROPS")},
+    "setlist": {t: ["C13"] for t in ("RES_GET", "EMPTY", "REFINE", "HANDLE", "HREAD", "HPOS", "HEFFECT", "STEP", "HSTALE", "DROPS")},
     "seg": {"YIELD": ["C03"], "COMPLETE": ["C03"], "COPIES": ["C16"], "PLACES": ["C15"], "MATRIX": ["C15", "C03"], "KEEP": ["C03"],
             "LAYOUT": ["C14"], "OUTCOME": ["C10"], "TORN": ["C18"], "CLEARED": ["C12"]},
 }
@@ -38,10 +38,11 @@ for _k in ("maplist", "setlist"):
 # property that specifies that call promises: per kind of collection, call -> properties
 _KEYQ = {"lt": ["C01"], "le": ["C01"], "by": ["C01"], "get": ["C06"], "export": ["C07"], "exportn": ["C07", "C19"],
          "ins": ["C01", "C06"], "bulk": ["C01", "C06"], "clear": ["C01", "C06", "C12"], "empty": ["C01"]}
-_MAPQ = {"get": ["C04"], "ins": ["C04"], "bulk": ["C04"], "del": ["C04"], "clear": ["C04", "C12"], "empty": ["C04"],
+_MAPQ = {"drop": ["C04"], "get": ["C04"], "ins": ["C04"], "bulk": ["C04"], "del": ["C04"], "clear": ["C04", "C12"], "empty": ["C04"],
          "fil": ["C08"], "filby": ["C08"], "read": ["C08"], "write": ["C08"], "delh": ["C08"]}
 _SETQ = dict(_MAPQ, get=["C05"], ins=["C05"], bulk=["C05"], clear=["C05", "C12"], empty=["C05"], after=["C09"], before=["C09"])
 _SETQ["del"] = ["C05"]
+_SETQ["drop"] = ["C05"]
 OUTCOME_OPS = {
     "keytree": _KEYQ,
     "keylist": {k: ["C13"] + (["C07"] if k.startswith("export") else []) for k in _KEYQ},
@@ -613,6 +614,11 @@ def plan_ord(ctx, colls):
     futs += random_jobs(ctx, colls, 2 if q else 8, {"keys": 10, "steps": 2500 if q else 12000, "seglen": 90})
     futs += random_jobs(ctx, colls, 1 if q else 3, {"keys": 40, "steps": 1200 if q else 6000, "seglen": 400}, tag="-wide")
     futs += ord_scale_jobs(ctx, colls, deep=300000)
+    # instance-counting payloads: a value dropped twice, or never, by an entry move, a removal, clear or the drop
+    # of the collection shows as a non-zero residue when the instance is dropped (C04 / C05: "never duplicated or lost")
+    for cc in sorted({kind_of(c) + "-cnt" for c in colls}):
+        futs += random_jobs(ctx, [cc], 1 if q else 4, {"keys": 14, "steps": 1500 if q else 8000, "seglen": 80}, tag="-cnt")
+        futs.append(ctx.submit(f"scale-{cc}", cc, "scale", {"plan": "15:26" if q else "15:26,38:48,71:80", "seed": ctx.seed}))
     # one step of every kind from every valid red-black tree (not only the reachable ones of a small universe)
     futs += ord_ind_jobs(ctx, colls, 8 if q else 11, 2 if q else 4, limit=(200 // len(colls)) if q else 4000,
                          handles=1 if ctx.pid in ("C17", "C08") else 0)
@@ -725,6 +731,7 @@ def plan_lists(ctx):
     futs += random_jobs(ctx, ORD_LISTS, 1 if q else 6, {"keys": 10, "steps": 2000 if q else 10000, "seglen": 90})
     futs += random_jobs(ctx, ["keylist"], 2 if q else 8, {"keys": 8, "tspan": 5, "steps": 2500 if q else 12000, "seglen": 70})
     futs += ord_scale_jobs(ctx, ORD_LISTS, deep=200000)
+    futs += random_jobs(ctx, ["maplist-cnt", "setlist-cnt"], 1 if q else 4, {"keys": 14, "steps": 1500 if q else 8000, "seglen": 80}, tag="-cnt")
     futs += key_scale_jobs(ctx, ["keylist"], "ABCD", deep=20000 if q else 60000)
     ctx.collect(futs)
     return ctx.finish(COVER_RULE + "; the lists ship no snapshot: results are checked call by call and the full observable "
